@@ -9,7 +9,7 @@ own minimal reader (msgpack_min.py) and mapped positionally through the field or
 usage: check_c20.py <tier> <seed> [replay-file]
 exit 0 held / 1 VIOLATION / 2 inconclusive
 """
-import ast, hashlib, importlib.util, json, os, resource, subprocess, sys, time
+import ast, hashlib, importlib.util, json, math, os, re, resource, subprocess, sys, time
 
 HERE = os.path.dirname(os.path.abspath(__file__))
 ROOT = os.path.abspath(os.path.join(HERE, ".."))
@@ -243,10 +243,24 @@ def check(src, must_return, given_raw=None):
         elif isinstance(p, int):
             if tname not in ("INTEGER_LITERAL", "MACRO_VAR_RESOLVE") and "MACRO_VAR" not in tname:
                 v.append(("payload-type", f"payload-type:int-on:{tname}", f"token {i} {tname} carries an integer payload"))
+            # the value must survive the trip: plain digits and hex spellings have one reading
+            txt = src[d["start"]:d["stop"]]
+            if tname == "INTEGER_LITERAL" and txt.isascii():
+                want = int(txt) if txt.isdigit() else (int(txt[:-1], 16) if txt[-1:] in "xX" and txt[:1].isdigit() and all(c in "0123456789abcdefABCDEF" for c in txt[:-1]) else None)
+                if want is not None and want != p:
+                    v.append(("payload-value", "payload-value:int", f"token {i} {tname} {txt!r} carries {p!r}"))
             nontrivial = True
         elif isinstance(p, float):
             if tname not in ("FLOAT_LITERAL", "FLOAT_EXPONENT_LITERAL"):
                 v.append(("payload-type", f"payload-type:float-on:{tname}", f"token {i} {tname} carries a float payload"))
+            txt = src[d["start"]:d["stop"]]
+            if txt.isascii() and re.fullmatch(r"[0-9]*\.?[0-9]*([eE][+-]?[0-9]+)?", txt) and any(c.isdigit() for c in txt.split("e")[0].split("E")[0]):
+                try:
+                    want = float(txt)
+                except ValueError:
+                    want = None
+                if want is not None and (want != p or math.copysign(1.0, want) != math.copysign(1.0, p)):
+                    v.append(("payload-value", "payload-value:float", f"token {i} {tname} {txt!r} carries {p!r}, the spelling reads as {want!r}"))
             nontrivial = True
         elif isinstance(p, list):
             nontrivial = True
@@ -818,7 +832,7 @@ def main():
         "coverage": {
             "evaluations": stats["evaluations"],
             "distinct_nontrivial": len(stats["nontrivial"]),
-            "rule": "cases: construct-grammar programs and generated soups exported by the Rust harness (same generators as C01-C15), the real-world .sas files, Hypothesis text (fragment lists, weighted characters, arbitrary Unicode), token / error / literal-buffer counts around 2^4, 2^8, 2^16 and a payload above 1 MiB followed by small programs, every code point below U+0530 and a selection of higher ones at the start / end / inside a literal of a small program, all through the real extension module; plus the finite comparison of the committed enum/class modules with the build script's output; distinct = distinct source; non-trivial = the result has an error, a numeric/string payload, or the source has a non-ASCII character",
+            "rule": "cases: construct-grammar programs and generated soups exported by the Rust harness (same generators as C01-C15), the real-world .sas files, Hypothesis text (fragment lists, weighted characters, arbitrary Unicode), token / error / literal-buffer counts around 2^4, 2^8, 2^16 and a payload above 1 MiB followed by small programs, every code point below U+0530 and a selection of higher ones at the start / end / inside a literal of a small program, all through the real extension module (numeric payloads must also carry the value their spelling has); plus the finite comparison of the committed enum/class modules with the build script's output; distinct = distinct source; non-trivial = the result has an error, a numeric/string payload, or the source has a non-ASCII character",
             "samples": list(stats["samples"].values()),
             "exhaustive": False,
             "enum_files_compared": files_compared,
